@@ -198,11 +198,12 @@ StakeChange ==
 SetKeys ==
     /\ hub.inb
     /\ \E v \in Vals, o \in Orchs, e \in Exts, c \in KeyChains, variant \in KeyVariants :
-          Do([k |-> "SetKeys", i |-> 0, val |-> v, orch |-> o, ext |-> e, chain |-> c,
-              txby   |-> IF variant = "wrongtx" THEN "a1" ELSE v,
+          \* "nonval": an ordinary account registers keys for itself as if it were a validator (everything else is in order)
+          Do([k |-> "SetKeys", i |-> 0, val |-> IF variant = "nonval" THEN "a1" ELSE v, orch |-> o, ext |-> e, chain |-> c,
+              txby   |-> IF variant \in {"wrongtx", "nonval"} THEN "a1" ELSE v,
               sigkey |-> IF variant = "wrongkey" THEN "e9" ELSE e,
               sigseq |-> IF variant \in {"stale", "toolstale"} THEN -1 ELSE 0,
-              sigval |-> IF variant = "wrongval" THEN (CHOOSE w \in Vals : w # v) ELSE v,
+              sigval |-> IF variant = "wrongval" THEN (CHOOSE w \in Vals : w # v) ELSE IF variant = "nonval" THEN "a1" ELSE v,
               \* "tool": the signature is made by the operators' real key tool (keys-generator), "toolstale": the tool with an old sequence number
               tool   |-> variant \in {"tool", "toolstale"}])
     /\ xw' = XwObserve(xw, hub')
